@@ -25,10 +25,20 @@ class SeriesV:
         return self.arr
 
     def alias(self, name):
-        return SeriesV(name, self.arr)
+        out = SeriesV(name, self.arr)
+        out.categorical = getattr(self, "categorical", False)
+        return out
 
     def unique(self):
         return ValueSet(self.arr)
+
+    def cut(self, breaks, **kw):
+        """polars Series.cut: a categorical column (one uninterpreted category id per row)"""
+        f = z3.Function(V.fresh_name("category"), z3.IntSort(), z3.RealSort())
+        arr = SArr((self.arr.shape[0],), lambda idx: Sym(f(V.lift(idx[0]))), "real")
+        out = SeriesV(self.name, arr)
+        out.categorical = True
+        return out
 
     def __iter__(self):
         return iter(self.arr)
@@ -110,6 +120,7 @@ class FrameV:
             fr.cols[c] = SArr((n,), (lambda f: lambda idx: f((remap(idx[0]),)))(f), arr.dtype)
         g = self.rowid.snapshot()
         fr.rowid = SArr((n,), lambda idx: g((remap(idx[0]),)), "int")
+        fr.catcols = set(getattr(self, "catcols", ()))
         return fr
 
     # -- polars API ------------------------------------------------------------
@@ -146,9 +157,18 @@ class FrameV:
             else:
                 items.append(e)
         for s in items:
+            if isinstance(s, ExprV):
+                # an expression evaluates to a column of the frame's height (polars broadcasts a scalar and raises on
+                # any other length): uninterpreted values under the expression's output name
+                fr.cols[s.name] = s.column_on(self, "real")
+                continue
             if not isinstance(s, SeriesV):
                 raise Unsupported("with_columns of a non-series expression")
+            if fr.cols and V.compare("==", s.arr.shape[0], self.n) is False:
+                _raise("ShapeError", "series length differs from the frame height")
             fr.cols[s.name] = s.arr
+            if getattr(s, "categorical", False):
+                fr.catcols = set(getattr(fr, "catcols", ())) | {s.name}
         for k, v in named.items():
             fr.cols[k] = v.arr if isinstance(v, SeriesV) else A.from_nested(v)
         return fr
@@ -159,6 +179,8 @@ class FrameV:
             ns.extend(x if isinstance(x, (list, tuple)) else [x])
         fr = self._like(self.n, lambda i: i)
         fr.cols = {c: fr.cols[c] for c in ns}
+        if not fr.cols:
+            fr.n = 0            # a polars frame without columns has no rows
         return fr
 
     def drop(self, *names):
@@ -167,7 +189,11 @@ class FrameV:
             ns.extend(x if isinstance(x, (list, tuple)) else [x])
         fr = self._like(self.n, lambda i: i)
         for c in ns:
+            if c not in fr.cols:
+                _raise("ColumnNotFoundError", c)
             fr.cols.pop(c)
+        if not fr.cols:
+            fr.n = 0            # a polars frame without columns has no rows
         return fr
 
     def __getitem__(self, key):
@@ -216,6 +242,9 @@ class ExprV:
 
     def _derive(self, *a, **k):
         return ExprV(self.name)
+
+    def alias(self, name):
+        return ExprV(name)
 
     def __getattr__(self, item):
         if item.startswith("_"):
@@ -395,6 +424,134 @@ def pl_concat(items, how="vertical", **kw):
     return out
 
 
+class CatKeyV:
+    """key of a group of a categorical (cut) column: the label "(lo, hi]" with uninterpreted edges; only the parse
+    acryo performs is modelled: key[1:-1].split(", ") -> two numerals"""
+    _pyvc_native = True
+
+    def __init__(self, lo, hi, inner=False):
+        self.lo, self.hi, self.inner = lo, hi, inner
+
+    def __getitem__(self, k):
+        if isinstance(k, slice) and k.start == 1 and k.stop == -1 and not self.inner:
+            return CatKeyV(self.lo, self.hi, True)
+        raise Unsupported("indexing a category label")
+
+    def split(self, sep=None):
+        if self.inner and sep == ", ":
+            return [NumeralV(self.lo), NumeralV(self.hi)]
+        raise Unsupported("split of a category label")
+
+
+class NumeralV:
+    _pyvc_native = True
+
+    def __init__(self, v):
+        self.v = v
+
+    def _as_float(self):
+        return self.v
+
+
+class GroupByV:
+    """polars GroupBy (maintain_order=True) -- trusted contract: G groups; group g has a key value key(g), distinct
+    groups have distinct keys, every row's key is the key of exactly one group (Skolem `grp`), and the frame of group g
+    is the rows whose key equals key(g), in their original order."""
+    _pyvc_native = True
+
+    def __init__(self, frame, keys, categorical=False):
+        self.frame, self.keys = frame, list(keys)
+        self.categorical = categorical or any(k in getattr(frame, "catcols", ()) for k in self.keys)
+        for k in self.keys:
+            if k not in frame.cols:
+                _raise("ColumnNotFoundError", k)
+        name = V.fresh_name("groups")
+        self.G = Sym(z3.Int(name + "_count"))
+        self.keyf = [z3.Function(f"{name}_key{q}", z3.IntSort(), z3.RealSort()) for q in range(len(self.keys))]
+        self.grp = z3.Function(name + "_of_row", z3.IntSort(), z3.IntSort())
+        p = V.PATH[0]
+        if p is not None:
+            n = V.lift(frame.n)
+            i, g1, g2 = z3.Int(name + "!i"), z3.Int(name + "!g1"), z3.Int(name + "!g2")
+            p.conds.append(z3.And(self.G.t >= 0, self.G.t <= n, z3.Implies(n > 0, self.G.t >= 1)))
+            cols = [frame.cols[k].snapshot() for k in self.keys]
+            same = z3.And(*[V.lift(V.to_real(c((Sym(i),)))) == kf(self.grp(i)) for c, kf in zip(cols, self.keyf)])
+            p.conds.append(z3.ForAll([i], z3.Implies(z3.And(i >= 0, i < n),
+                                                     z3.And(self.grp(i) >= 0, self.grp(i) < self.G.t, same))))
+            p.conds.append(z3.ForAll([g1, g2], z3.Implies(
+                z3.And(g1 >= 0, g1 < self.G.t, g2 >= 0, g2 < self.G.t, *[kf(g1) == kf(g2) for kf in self.keyf]), g1 == g2)))
+            # rows of group g: count cnt(g) >= 1 and a strictly increasing map row(g, .) onto the rows with key(g)
+            self.cntf = z3.Function(name + "_size", z3.IntSort(), z3.IntSort())
+            self.rowf = z3.Function(name + "_row", z3.IntSort(), z3.IntSort(), z3.IntSort())
+            self.posf = z3.Function(name + "_pos", z3.IntSort(), z3.IntSort())
+            g, j = z3.Int(name + "!g"), z3.Int(name + "!j")
+            ing = z3.And(g >= 0, g < self.G.t)
+            p.conds.append(z3.ForAll([g], z3.Implies(ing, z3.And(self.cntf(g) >= 1, self.cntf(g) <= n))))
+            p.conds.append(z3.ForAll([g, j], z3.Implies(z3.And(ing, j >= 0, j < self.cntf(g)),
+                                                        z3.And(self.rowf(g, j) >= 0, self.rowf(g, j) < n,
+                                                               self.grp(self.rowf(g, j)) == g,
+                                                               self.posf(self.rowf(g, j)) == j))))
+            p.conds.append(z3.ForAll([g, j], z3.Implies(z3.And(ing, j >= 0, j + 1 < self.cntf(g)),
+                                                        self.rowf(g, j) < self.rowf(g, j + 1))))
+            p.conds.append(z3.ForAll([i], z3.Implies(z3.And(i >= 0, i < n),
+                                                     z3.And(self.posf(i) >= 0, self.posf(i) < self.cntf(self.grp(i)),
+                                                            self.rowf(self.grp(i), self.posf(i)) == i))))
+        self._cache = {}
+
+    def group(self, g):
+        """(key tuple, frame of group g, its row count, its row map)"""
+        k = g.t.sexpr() if is_sym(g) else g
+        if k not in self._cache:
+            gt = V.lift(g)
+            keyvals = tuple(Sym(kf(gt)) for kf in self.keyf)
+            if self.categorical:
+                lo = z3.Function(self.keyf[0].name() + "_lo", z3.IntSort(), z3.RealSort())
+                hi = z3.Function(self.keyf[0].name() + "_hi", z3.IntSort(), z3.RealSort())
+                keyvals = (CatKeyV(Sym(lo(gt)), Sym(hi(gt))),)
+            cnt = Sym(self.cntf(gt))
+            p = V.PATH[0]
+            if p is not None:       # instance of the (quantified) size axiom for this group
+                p.assume(Sym(z3.Implies(z3.And(gt >= 0, gt < self.G.t), z3.And(cnt.t >= 1, cnt.t <= V.lift(self.frame.n)))))
+            sel = lambda jj, gt=gt: Sym(self.rowf(gt, V.lift(jj)))
+            sub = self.frame._like(cnt, sel)
+            self._cache[k] = (keyvals, sub, cnt, sel)
+        return self._cache[k]
+
+    def _siter(self):
+        return self.G, (lambda g: (self.group(g)[0], self.group(g)[1]))
+
+    def __iter__(self):
+        raise Unsupported("Python-level iteration over a symbolic number of groups")
+
+
+def _group_by(self, *by, maintain_order=False, **named):
+    keys = []
+    for b in by:
+        keys.extend(b if isinstance(b, (list, tuple)) else [b])
+    if not all(isinstance(k, str) for k in keys) or named:
+        raise Unsupported("group_by an expression")
+    return GroupByV(self, keys)
+
+
+def _frame_mentions(self, L):
+    from . import loops as _loops
+    return _loops.mentions(self.n, L) or any(_loops.mentions(a, L) for a in self.cols.values())
+
+
+def _frame_subst(self, L, j):
+    from . import loops as _loops
+    fr = FrameV.__new__(FrameV)
+    fr.n = _loops.subst_value(self.n, L, j)
+    fr.cols = {c: _loops.subst_value(a, L, j) for c, a in self.cols.items()}
+    fr.rowid = _loops.subst_value(self.rowid, L, j)
+    return fr
+
+
+FrameV._mentions = _frame_mentions
+FrameV._subst = _frame_subst
+SeriesV._mentions = lambda self, L: __import__("pyvc.loops", fromlist=["x"]).mentions(self.arr, L)
+SeriesV._subst = lambda self, L, j: SeriesV(self.name, __import__("pyvc.loops", fromlist=["x"]).subst_value(self.arr, L, j))
+FrameV.group_by = _group_by
 FrameV.filter = _filter
 FrameV.sort = _sort
 FrameV.sample = _sample
@@ -407,6 +564,6 @@ def register(REG):
     REG["polars.DataFrame"] = FrameV
     REG["polars.Series"] = SeriesV
     REG["polars.concat"] = pl_concat
-    REG["polars.col"] = lambda *a, **k: ExprV("col")
+    REG["polars.col"] = lambda name="col", *a, **k: ExprV(name if isinstance(name, str) else "col")
     REG["polars.lit"] = lambda *a, **k: ExprV("lit")
     REG["polars.Expr"] = ExprV
